@@ -37,11 +37,11 @@ class FitInfoFile(object):
 
         elif isinstance(fits, (list, tuple)):
 
+            self._fits = fits
+
             for info in self._fits[1:]:
                 if info.meta != self._fits[0].meta:
                     raise ValueError("The meta property of all FitInfo instances should match")
-
-            self._fits = fits
 
         else:
 
